@@ -269,13 +269,14 @@ def output (fs : FS γ) (p : Path) (overwrite : Bool) (c : γ) : Except String (
 /-- a history of `output_to_fits` calls: the outcome of each call (`none` = success, `some kind` =
     the exception) and the final state.  A failing call changes nothing: `makedirs` fails before it
     creates anything, and once it succeeded the target cannot exist, so `writeto` succeeds. -/
+def outputStep (acc : List (Option String) × FS γ) (s : Path × Bool × γ) :
+    List (Option String) × FS γ :=
+  match output acc.2 s.1 s.2.1 s.2.2 with
+  | .ok fs' => (acc.1 ++ [none], fs')
+  | .error e => (acc.1 ++ [some e], acc.2)
+
 def outputs (fs : FS γ) (steps : List (Path × Bool × γ)) : List (Option String) × FS γ :=
-  steps.foldl
-    (fun (acc : List (Option String) × FS γ) s =>
-      match output acc.2 s.1 s.2.1 s.2.2 with
-      | .ok fs' => (acc.1 ++ [none], fs')
-      | .error e => (acc.1 ++ [some e], acc.2))
-    ([], fs)
+  steps.foldl outputStep ([], fs)
 
 end Fits
 end Model
